@@ -30,7 +30,13 @@ def load_known():
     if not os.path.exists(p):
         return {"findings": [], "fixed": []}
     with open(p) as fh:
-        return json.load(fh)
+        k = json.load(fh)
+    # development aid only: extra candidate findings while a check is being built (never set by registered commands)
+    extra = os.environ.get("VERIF_KNOWN_EXTRA")
+    if extra and os.path.exists(extra):
+        with open(extra) as fh:
+            k["findings"] = k.get("findings", []) + json.load(fh).get("findings", [])
+    return k
 
 
 def match_known(known, prop, key):
